@@ -333,7 +333,7 @@ func runC14(w *core.W) {
 		}
 	}
 	r := w.RNG("bytes")
-	for i, n := 0, w.Pick(20000, 400000); i < n; i++ {
+	for i, n := 0, w.Pick(40000, 800000); i < n; i++ {
 		tile("bytes", gen.RandBytes(r, 200))
 	}
 	for i, n := 0, w.Pick(2, 10); i < n; i++ {
@@ -346,11 +346,11 @@ func runC14(w *core.W) {
 	}
 	corpus := gen.CorpusBytes()
 	r = w.RNG("mut")
-	for i, n := 0, w.Pick(20000, 400000); i < n; i++ {
+	for i, n := 0, w.Pick(40000, 800000); i < n; i++ {
 		tile("mutant", gen.Mutate(r, corpus[r.Intn(len(corpus))], corpus))
 	}
 	r = w.RNG("pool")
-	for i, n := 0, w.Pick(10000, 200000); i < n; i++ {
+	for i, n := 0, w.Pick(20000, 400000); i < n; i++ {
 		tile("pool", gen.RandTokens(r, gen.LexPool, 40))
 	}
 	si := 0
@@ -420,7 +420,7 @@ func runC14(w *core.W) {
 	}
 	w.ExhaustivePart(fmt.Sprintf("all concatenations of <= %d lexemes from a %d-lexeme set x 8 separators", kmax, len(lex)))
 	r = w.RNG("concat-sampled")
-	for i, n := 0, w.Pick(60000, 600000); i < n; i++ {
+	for i, n := 0, w.Pick(120000, 1200000); i < n; i++ {
 		k := kmax + 1 + r.Intn(4)
 		var sb strings.Builder
 		for j := 0; j < k; j++ {
@@ -432,7 +432,7 @@ func runC14(w *core.W) {
 		tokCase([]byte(sb.String()), "concat-sampled")
 	}
 	r = w.RNG("tok-bytes")
-	for i, n := 0, w.Pick(20000, 300000); i < n; i++ {
+	for i, n := 0, w.Pick(40000, 600000); i < n; i++ {
 		tokCase(gen.Mutate(r, corpus[r.Intn(len(corpus))], corpus), "mutant")
 		tokCase(gen.RandTokens(r, gen.LexPool, 12), "pool")
 	}
@@ -445,7 +445,7 @@ func runC14(w *core.W) {
 			progs = append(progs, ref.Flatten(pr.Tree))
 		}
 	}
-	for i, n := 0, w.Pick(1500, 30000); i < n; i++ {
+	for i, n := 0, w.Pick(3000, 60000); i < n; i++ {
 		progs = append(progs, ref.Flatten(ref.Parenthesize(cfg.Node(r, 2+r.Intn(5)))))
 	}
 	layouts := w.Pick(6, 20)
